@@ -811,7 +811,7 @@ Export Cqm.
    adj_ (per variable the sorted vector of neighbouring variables), case_starts_ and the case-level BQM under the calls
    reachable from Python; the worker's py_dqm stream compares all three after every call (Model/ChkC20Dqm.v). *)
 From Dimod Require Model.DqmNative Proofs.DqmNativeFacts Proofs.DqmRoundTrip Proofs.DqmReads Proofs.DqmReadBack
-  Proofs.DqmRoundTripId Proofs.DqmEnergyFull Proofs.DqmOneHot.
+  Proofs.DqmRoundTripId Proofs.DqmEnergyFull Proofs.DqmOneHot Model.DqmReadsChecked Proofs.DqmReadsMore Proofs.DqmReadsArray Proofs.DqmReadsOrder.
 Module Dqm.
 Import Dimod.Model.DqmNative Dimod.Proofs.DqmNativeFacts.
 Local Open Scope nat_scope.
@@ -1084,6 +1084,129 @@ Theorem C20_dqm_reachable_round_trip_loses_nothing :
     /\ (forall u v l, u < d_nvars d -> get_quadratic (dstep d DRoundTrip) u v = Some l -> get_quadratic d u v = Some l).
 Proof. exact DqmOneHot.reachable_round_trip_loses_nothing. Qed.
 Print Assumptions C20_dqm_reachable_round_trip_loses_nothing.
+
+(* ---------- 9c. order of the COO dump, get_quadratic_case, the rejection half of energies (round 6, follow-up) ---------- *)
+(* to_numpy_vectors emits the interactions strictly sorted by (row case, col case) - rows ascending, inside a row the
+   columns ascending, col < row (C20_dqm_coo_dump_entries) - so no (row, col) key occurs twice *)
+Theorem C20_dqm_coo_dump_strictly_sorted :
+  forall b, Inv b ->
+    StronglySorted (fun t1 t2 : nat * nat * Qc =>
+                      fst (fst t1) < fst (fst t2) \/ (fst (fst t1) = fst (fst t2) /\ snd (fst t1) < snd (fst t2)))
+                   (to_coo b).
+Proof. exact DqmReadsMore.to_coo_sorted. Qed.
+Print Assumptions C20_dqm_coo_dump_strictly_sorted.
+
+Theorem C20_dqm_coo_dump_keys_unique : forall b, Inv b -> NoDup (map fst (to_coo b)).
+Proof. exact DqmReadsMore.to_coo_keys_NoDup. Qed.
+Print Assumptions C20_dqm_coo_dump_keys_unique.
+
+(* get_quadratic_case (Model/DqmReadsChecked.v; None = ValueError) raises exactly for an out-of-range case *)
+Theorem C20_dqm_get_quadratic_case_rejects :
+  forall d u cu v cv,
+    DqmReadsChecked.get_quadratic_case d u cu v cv = None <-> ~ (cu < d_ncases d u /\ cv < d_ncases d v).
+Proof. exact DqmReadsMore.get_quadratic_case_None_iff. Qed.
+Print Assumptions C20_dqm_get_quadratic_case_rejects.
+
+(* read after write: after set_quadratic_case(u, cu, v, cv, b) the case pair written reads b from either side and
+   EVERY other case pair of any two variables reads what it read before *)
+Theorem C20_dqm_get_quadratic_case_after_set :
+  forall d u cu v cv b x cx y cy,
+    DInv d -> dop_ok d (DSetQuadCase u cu v cv b) = true ->
+    x < d_nvars d -> y < d_nvars d -> cx < d_ncases d x -> cy < d_ncases d y ->
+    DqmReadsChecked.get_quadratic_case (dstep d (DSetQuadCase u cu v cv b)) x cx y cy
+    = Some (if ((x =? u) && (cx =? cu) && ((y =? v) && (cy =? cv))) || ((x =? v) && (cx =? cv) && ((y =? u) && (cy =? cu)))
+            then b else quadratic (d_b d) (cs d x cx) (cs d y cy)).
+Proof. exact DqmReadsMore.get_quadratic_case_after_set. Qed.
+Print Assumptions C20_dqm_get_quadratic_case_after_set.
+
+(* the dict form of get_quadratic and get_quadratic_case agree: a listed triple is what the case read returns, an
+   unlisted case pair reads 0 *)
+Theorem C20_dqm_get_quadratic_case_vs_dict :
+  forall d u v l cu cv,
+    DInv d -> u < d_nvars d -> v < d_nvars d -> cu < d_ncases d u -> cv < d_ncases d v ->
+    get_quadratic d u v = Some l ->
+    (forall x, In (cu, cv, x) l -> DqmReadsChecked.get_quadratic_case d u cu v cv = Some x)
+    /\ ((forall x, ~ In (cu, cv, x) l) -> DqmReadsChecked.get_quadratic_case d u cu v cv = Some 0%Qc).
+Proof. exact DqmReadsMore.get_quadratic_case_vs_dict. Qed.
+Print Assumptions C20_dqm_get_quadratic_case_vs_dict.
+
+(* every triple get_quadratic lists is a stored interaction between a case of u and a case of v, both in range *)
+Theorem C20_dqm_get_quadratic_entries_in_range :
+  forall d u v l cu cv x,
+    DInv d -> u < d_nvars d -> v < d_nvars d -> get_quadratic d u v = Some l -> In (cu, cv, x) l ->
+    cu < d_ncases d u /\ cv < d_ncases d v /\ nb_get (cs d v cv) (nb (d_b d) (cs d u cu)) = Some x.
+Proof. exact DqmReadsMore.get_quadratic_entries_in_range. Qed.
+Print Assumptions C20_dqm_get_quadratic_entries_in_range.
+
+(* energies with its checks (one sample row; None = ValueError): it raises - never returns a number - exactly when
+   the row has the wrong length or some case is out of range, and otherwise returns d_energy *)
+Theorem C20_dqm_energies_rejects_exactly_invalid_rows :
+  forall d s,
+    DqmReadsChecked.energies_checked d s = None <->
+    length s <> d_nvars d \/ exists u, u < d_nvars d /\ d_ncases d u <= nth u s 0.
+Proof. exact DqmReadsMore.energies_checked_None_iff. Qed.
+Print Assumptions C20_dqm_energies_rejects_exactly_invalid_rows.
+
+Theorem C20_dqm_energies_accepts_valid_rows :
+  forall d s, length s = d_nvars d -> (forall u, u < d_nvars d -> nth u s 0 < d_ncases d u) ->
+    DqmReadsChecked.energies_checked d s = Some (d_energy d s).
+Proof. exact DqmReadsMore.energies_checked_valid. Qed.
+Print Assumptions C20_dqm_energies_accepts_valid_rows.
+
+(* the dict form of get_quadratic emits its triples strictly sorted by (case of u, case of v): "exactly the stored case
+   pairs" = C20_dqm_get_quadratic_lists_stored + _entries_in_range + no case pair twice *)
+Theorem C20_dqm_get_quadratic_strictly_sorted :
+  forall d u v l, DInv d -> u < d_nvars d -> get_quadratic d u v = Some l ->
+    StronglySorted (fun t1 t2 : nat * nat * Qc =>
+                      fst (fst t1) < fst (fst t2) \/ (fst (fst t1) = fst (fst t2) /\ snd (fst t1) < snd (fst t2))) l.
+Proof. exact DqmReadsOrder.get_quadratic_sorted. Qed.
+Print Assumptions C20_dqm_get_quadratic_strictly_sorted.
+
+Theorem C20_dqm_get_quadratic_keys_unique :
+  forall d u v l, DInv d -> u < d_nvars d -> get_quadratic d u v = Some l -> NoDup (map fst l).
+Proof. exact DqmReadsOrder.get_quadratic_keys_NoDup. Qed.
+Print Assumptions C20_dqm_get_quadratic_keys_unique.
+
+(* get_quadratic(u, v, array=True): raises exactly when the dict form does, has shape num_cases(u) x num_cases(v),
+   and every cell is the stored bias between the two cases (0 when there is none) = what get_quadratic_case returns *)
+Theorem C20_dqm_get_quadratic_array_presence :
+  forall d u v, DqmReadsChecked.get_quadratic_array d u v = None <-> get_quadratic d u v = None.
+Proof. exact DqmReadsArray.get_quadratic_array_presence. Qed.
+Print Assumptions C20_dqm_get_quadratic_array_presence.
+
+Theorem C20_dqm_get_quadratic_array_shape :
+  forall d u v a, DqmReadsChecked.get_quadratic_array d u v = Some a ->
+    length a = d_ncases d u /\ forall row, In row a -> length row = d_ncases d v.
+Proof. exact DqmReadsArray.get_quadratic_array_shape. Qed.
+Print Assumptions C20_dqm_get_quadratic_array_shape.
+
+Theorem C20_dqm_get_quadratic_array_cell :
+  forall d u v a cu cv,
+    DInv d -> DqmReadsChecked.get_quadratic_array d u v = Some a -> cu < d_ncases d u -> cv < d_ncases d v ->
+    nth cv (nth cu a []) 0%Qc = quadratic (d_b d) (cs d u cu) (cs d v cv).
+Proof. exact DqmReadsArray.get_quadratic_array_cell. Qed.
+Print Assumptions C20_dqm_get_quadratic_array_cell.
+
+Theorem C20_dqm_get_quadratic_array_vs_case :
+  forall d u v a cu cv,
+    DInv d -> DqmReadsChecked.get_quadratic_array d u v = Some a -> cu < d_ncases d u -> cv < d_ncases d v ->
+    DqmReadsChecked.get_quadratic_case d u cu v cv = Some (nth cv (nth cu a []) 0%Qc).
+Proof. exact DqmReadsArray.get_quadratic_array_vs_case. Qed.
+Print Assumptions C20_dqm_get_quadratic_array_vs_case.
+
+(* non-trivial data: two variables (2 and 3 cases), one stored interaction; the array, the case read, an accepted and
+   two rejected energies rows *)
+Example C20_dqm_reads_examples :
+  let d0 := dstep (dstep d_empty (DAddVar 2)) (DAddVar 3) in
+  let d1 := dstep d0 (DSetQuadCase 1 2 0 1 (qc 3 2)) in
+  DqmReadsChecked.get_quadratic_array d1 0 1 = Some [[0%Qc; 0%Qc; 0%Qc]; [0%Qc; 0%Qc; qc 3 2]]
+  /\ DqmReadsChecked.get_quadratic_case d1 0 1 1 2 = Some (qc 3 2)
+  /\ DqmReadsChecked.get_quadratic_case d1 0 2 1 2 = None
+  /\ DqmReadsChecked.energies_checked d1 [1; 2] = Some (qc 3 2)
+  /\ DqmReadsChecked.energies_checked d1 [1; 3] = None
+  /\ DqmReadsChecked.energies_checked d1 [1] = None
+  /\ to_coo (d_b d1) = [(4, 1, qc 3 2)].
+Proof. vm_compute. repeat split; reflexivity. Qed.
 
 (* both sides of the iff occur: a stored interaction survives the rebuild as it is, a pair recorded by an all-zero
    dense set_quadratic is forgotten (the state still satisfies the invariant) *)
